@@ -973,10 +973,10 @@ func (s *Store[K, V]) processSecondary() {
 		case item = <-s.secondaryCacheBuf:
 		}
 		tk := item.shard.mu.RLock()
-		// first double check key still exists in map,
-		// not exist means key already deleted by Delete API
-		_, exist := item.shard.get(item.entry.key)
-		if exist {
+		// first double check this entry is still the one in map,
+		// if not the key was already deleted (and maybe set again) by API
+		current, exist := item.shard.get(item.entry.key)
+		if exist && current == item.entry {
 			err := s.secondaryCache.Set(
 				item.entry.key, item.entry.value,
 				item.entry.weight.Load(), item.entry.expire.Load(),
